@@ -251,6 +251,17 @@ class C05(RecorderProp):
                     if r['log'] != want_a and r['log'] != want_b:
                         fails.append('run %d: recording #%d not finalised exactly once: cassette saw %r' % (i, created, r['log']))
                     created += 1
+                    # "saved only if every interception that occurred was captured": a wrapped body that ran during the
+                    # operation ran inside a top-level interception of this recording (a nested one is its parent's business)
+                    saved = r.get('saved')
+                    if saved and 'meta' in saved and saved['meta']['incomplete'] is False and r.get('journal'):
+                        held = len(saved['data']['inputs']) + sum(
+                            1 for k, _ in saved['data']['named']
+                            if k.startswith('output: ') and not k.startswith('output: _tape_recorder_operation'))
+                        if held == 0:
+                            fails.append('run %d: recording #%d was saved, not flagged incomplete, and holds none of the interceptions '
+                                         'that occurred during the operation (wrapped bodies ran: %r)'
+                                         % (i, created - 1, [j[0] for j in r['journal']][:6]))
                 elif r['log']:
                     fails.append('run %d: no recording scope expected, cassette saw %r' % (i, r['log']))
             else:
